@@ -55,6 +55,8 @@ def _collect_env(run, res, stats):
             faults['prototype_locator_destroyed_after_construction'] = faults.get('prototype_locator_destroyed_after_construction', 0) + 1
         elif k == 'probe_register_again':
             probes['refused_registration_attempted_twice'] = probes.get('refused_registration_attempted_twice', 0) + 1
+        elif k == 'companion_ctor':
+            faults['second_generated_shell_type_in_the_program'] = faults.get('second_generated_shell_type_in_the_program', 0) + 1
         elif k == 'sibling_check':
             probes['sibling_instance_inspected_after_the_run'] = probes.get('sibling_instance_inspected_after_the_run', 0) + 1
 
